@@ -73,8 +73,17 @@ func main() {
 			go func() {
 				defer lwg.Done()
 				for i := range lch {
+					if atomic.LoadInt32(&hungRuns) >= 6 {
+						continue // enough hung connections: the evidence is in
+					}
 					f, d := longLived(lls[i].cfg, lls[i].md, lls[i].sq, lls[i].cc)
 					out[i] = llres{f, d}
+					for _, x := range f {
+						if strings.HasPrefix(x.Class, "hang") {
+							atomic.AddInt32(&hungRuns, 1)
+							break
+						}
+					}
 				}
 			}()
 		}
